@@ -2,12 +2,13 @@ CHECK = {
     "level": "exploration",
     "engine": "rtmp-packets",
     "technique": "runtime round-trip monitors over generated packets, exhaustive 65536-event-type sweep, and a lock-step reference model of the outstanding-request table and of typed waits over two real endpoints",
-    "level_text": "Held on the executions observed: tens of thousands of generated well-formed packets from every constructor (Size/marshal/unmarshal/re-marshal), all 65536 user-control event types x 5 data values exhaustively, thousands of A<->B histories over segmenting transports in which the peer's decoded Go type is compared with the statement's dispatch table and every _result/_error is judged by a small reference model of the outstanding table (matched, duplicate, unsolicited, re-used, zero/negative/fractional tids), and typed waits compared with 'first element of the requested type, nothing more consumed'. Not a proof.",
+    "level_text": "Held on the executions observed: tens of thousands of generated well-formed packets from every constructor (Size/marshal/unmarshal/re-marshal), all 65536 user-control event types x 5 data values exhaustively, thousands of A<->B histories over segmenting transports in which the peer's decoded Go type is compared with the statement's dispatch table and every _result/_error is judged by a small reference model of the outstanding table (matched, duplicate, unsolicited, re-used, zero/negative/fractional tids), sessions with up to thousands (thorough: tens of thousands) of requests outstanding at once answered in PRNG order, and typed waits compared with 'first element of the requested type, nothing more consumed'. Not a proof.",
     "level_note": "In-package (needs the unexported transaction hook for typed-wait set-up). AMF0 trees depth<=3, width<=6. _error responses: only no-panic and 'state afterwards unspecified' (statement speaks of _result). play/createStream/closeStream are accepted as the generic call packet re-marshalling to the same payload (DESIGN.md 4.1).",
     "parts": [
         {"name": "roundtrip", "pkg": "rtmp", "run": "^TestVerif_C03_RoundTrip$", "timeout": {"quick": 600, "thorough": 3600}},
         {"name": "ucsweep", "pkg": "rtmp", "run": "^TestVerif_C03_UserControlSweep$", "timeout": {"quick": 600, "thorough": 3600}},
         {"name": "wire", "pkg": "rtmp", "run": "^TestVerif_C03_Wire$", "timeout": {"quick": 600, "thorough": 3600}},
+        {"name": "outstanding", "pkg": "rtmp", "run": "^TestVerif_C03_ManyOutstanding$", "timeout": {"quick": 600, "thorough": 3600}},
         {"name": "expect", "pkg": "rtmp", "run": "^TestVerif_C03_Expect$", "timeout": {"quick": 600, "thorough": 3600}},
     ],
     "assumptions": [
